@@ -396,3 +396,12 @@ Theorem C01_listing_sorted_by_name :
     sorted by_name res.
 Proof. exact filter_sorted_sorted. Qed.
 Print Assumptions C01_listing_sorted_by_name.
+
+(* ListDatabases lists every database at most once *)
+Theorem C01_list_databases_names_distinct :
+  forall matchf c q res,
+    no_error (fun d => matchf d q) (map (db_spec (cat_ns c)) (db_names (cat_ns c) [])) ->
+    txn_list_databases matchf c q = inl res ->
+    NoDup (names_of res).
+Proof. exact list_databases_names_distinct. Qed.
+Print Assumptions C01_list_databases_names_distinct.
